@@ -136,6 +136,7 @@ def run(chk: Check) -> None:
     run_instance_wide(chk, ix)
     run_memo_keys(chk, ix)
     run_error_kinds(chk, ix)
+    run_uninit(chk, ix)
     base = ix.cls(OP)
     ops = [c for c in base.all_subclasses() if c.module.name == "mypyc.ir.ops" and "sources" in c.methods and not any(isinstance(n, ast.Raise) for n in c.methods["sources"].node.body)]
     if len(ops) < 35:
@@ -403,3 +404,49 @@ def run_error_kinds(chk: Check, ix) -> None:
         r6.ok("the case analysis is entered for every RegisterOp with error_kind != ERR_NEVER", f.loc())
     else:
         r6.violation("the case analysis is entered for every RegisterOp with error_kind != ERR_NEVER", f.loc(), "ops that can raise are filtered by something other than `error_kind != ERR_NEVER`")
+
+
+def run_uninit(chk: Check, ix) -> None:
+    """R06.7: reads of maybe-undefined registers are checked before the op that reads them."""
+    from ..pattern import has
+    r7 = chk.rule("R06.7", "split_blocks_at_uninits inspects every source of every op, inserts the definedness check for each Register source that the must-defined analysis does not guarantee (only the check itself and LoadAddress are exempt), before the op is appended to its block, and the failing branch raises UnboundLocalError and is terminated", floor=4)
+    f = ix.func("mypyc.transform.uninit.split_blocks_at_uninits")
+    src_loops = [l for l in ast.walk(f.node) if isinstance(l, ast.For) and isinstance(l.iter, ast.Call) and isinstance(l.iter.func, ast.Attribute) and l.iter.func.attr in ("unique_sources", "sources") and norm(l.iter.func.value) == "op"]
+    if len(src_loops) != 1:
+        raise AnalysisError("split_blocks_at_uninits: the loop over the op's sources was not found")
+    lp = src_loops[0]
+    r7.ok("every source of the op is inspected (`for src in op.unique_sources()`)", f.loc(lp))
+    tests = [t for t in lp.body if isinstance(t, ast.If)]
+    conj = []
+    if tests:
+        t = tests[0].test
+        conj = [norm(v) for v in (t.values if isinstance(t, ast.BoolOp) and isinstance(t.op, ast.And) else [t])]
+    sv = norm(lp.target)
+    allowed = {f"isinstance({sv}, Register)", f"{sv} not in defined", "not (isinstance(op, Branch) and op.op == Branch.IS_ERROR)", "not isinstance(op, LoadAddress)"}
+    need = {f"isinstance({sv}, Register)", f"{sv} not in defined"}
+    key = "the check is inserted for every Register source that is not must-defined, with only the two documented exemptions"
+    if need <= set(conj) and set(conj) <= allowed:
+        r7.ok(key, f.loc(tests[0]))
+    else:
+        r7.violation(key, f.loc(tests[0]) if tests else f.loc(lp), f"condition is {conj}: " + ("a required conjunct is missing" if not need <= set(conj) else f"additional exemption(s) {sorted(set(conj) - allowed)}: reads of possibly unassigned registers by those ops go unchecked (NULL dereference instead of UnboundLocalError)"))
+    # the op itself is appended after its sources were checked
+    par = f.module.parents()
+    outer = par.get(lp)
+    while outer is not None and not isinstance(outer, ast.For):
+        outer = par.get(outer)
+    appended = False
+    if outer is not None:
+        idx = [i for i, st in enumerate(outer.body) if st is lp or any(x is lp for x in ast.walk(st))]
+        later = outer.body[idx[0] + 1:] if idx else []
+        appended = any(isinstance(c, ast.Call) and isinstance(c.func, ast.Attribute) and c.func.attr == "append" and c.args and norm(c.args[0]) == "op" for st in later for c in ast.walk(st))
+        earlier = outer.body[: idx[0]] if idx else []
+        early_app = any(isinstance(c, ast.Call) and isinstance(c.func, ast.Attribute) and c.func.attr == "append" and c.args and norm(c.args[0]) == "op" for st in earlier for c in ast.walk(st))
+        appended = appended and not early_app
+    if appended:
+        r7.ok("the op is appended to the current block after the checks for its sources", f.loc(lp))
+    else:
+        r7.violation("the op is appended to the current block after the checks for its sources", f.loc(lp), "the op precedes (or is not followed by) the definedness checks of its own operands")
+    if has(f.node, "$e.ops.append($r)", "$e.ops.append(Unreachable())") and any(isinstance(c, ast.Attribute) and norm(c) == "RaiseStandardError.UNBOUND_LOCAL_ERROR" for c in ast.walk(f.node)):
+        r7.ok("the failing branch raises UNBOUND_LOCAL_ERROR and ends in Unreachable", f.loc())
+    else:
+        r7.violation("the failing branch raises UNBOUND_LOCAL_ERROR and ends in Unreachable", f.loc(), "the error block of the definedness check no longer raises UnboundLocalError / is not terminated")
